@@ -183,7 +183,7 @@ class P:
                 stmts.append(("expr", e))
             elif self.at("}"):
                 tail = e
-            elif e[0] in ("if", "iflet", "block", "match"):
+            elif e[0] in ("if", "iflet", "block", "match", "matchg"):
                 stmts.append(("expr", e))
             else:
                 raise Unsupported(f"statement boundary at {self.peek()[1]!r}")
@@ -324,18 +324,28 @@ class P:
             self.next()
             scrut = self.expr_nostruct()
             self.eat("{")
-            arms = []
+            arms, garms, guarded = [], [], False
             while not self.at("}"):
                 pats = [self.match_pat()]
                 while self.at("|"):
                     self.next()
                     pats.append(self.match_pat())
+                guard = None
+                if self.at("if"):
+                    self.next()
+                    guard = self.expr()
+                    guarded = True
+                if any(isinstance(q, tuple) and q[0] == "tuplepat" for q in pats):
+                    guarded = True
                 self.eat("=>")
                 body = self.block() if self.at("{") else ("block", [], self.expr())
                 if self.at(","):
                     self.next()
                 arms.append((pats, body))
+                garms.append((pats, guard, body))
             self.eat("}")
+            if guarded:
+                return ("matchg", scrut, garms)
             return ("match", scrut, arms)
         if v in ("move", "|", "||"):
             if v == "move":
@@ -347,6 +357,9 @@ class P:
                 self.eat("|")
                 while not self.at("|"):
                     params.append(self.pat())
+                    if self.at(":"):          # `|v: T|`: annotation skipped
+                        while not (self.at(",") or self.at("|")):
+                            self.next()
                     if self.at(","):
                         self.next()
                 self.eat("|")
@@ -372,6 +385,18 @@ class P:
         if v == "_":
             self.next()
             return "_"
+        if v == "(":
+            self.next()
+            items = []
+            while not self.at(")"):
+                t = self.next()
+                if t[1] not in ("true", "false", "_"):
+                    raise Unsupported("tuple pattern element")
+                items.append(t[1])
+                if self.at(","):
+                    self.next()
+            self.eat(")")
+            return ("tuplepat", items)
         if k == "id":
             self.next()
             path = v
